@@ -397,3 +397,22 @@ package PVM
 //@   ensures stack: result3 == ExitContinue ==> result2.heapLimit == 4294967296 - 2*65536 - 16777216 - uint64(P(int(nth(d, 4))))
 //@   ensures pages: result3 == ExitContinue ==> result2.Pages != nil
 //@   assigns everything
+
+// ---- transfer (host call 20): gas (C04), token conservation (C08), error discipline (C07) ----
+//@ pred xacc(input) = input.Addition.ResultContextX.PartialState.ServiceAccounts
+//@ func transfer
+//@   props C04 C08 C07
+//@   opt slow=5
+//@   requires vm: input.VM != nil && input.VM.Gas != nil && input.VM.Registers != nil && input.VM.Memory != nil && wf_mem(input.VM.Memory) && *input.VM.Gas > -9223372036854775000
+//@   requires ctx: xacc(input) != nil && input.Addition.GeneralArgs.ServiceAccountState != nil && *input.Addition.GeneralArgs.ServiceAccountState != nil && input.Addition.GeneralArgs.ServiceAccount != nil
+//@   let g0 = *input.VM.Gas
+//@   let a = input.VM.Registers[8]
+//@   let l = input.VM.Registers[9]
+//@   let s = input.Addition.ResultContextX.ServiceID
+//@   let bal0 = uint64(xacc(input)[s].ServiceInfo.Balance)
+//@   ensures prologue: g0 < 10 ==> result.ExitReason == ExitOOG && *input.VM.Gas == g0 - 10
+//@   ensures charged: g0 >= 10 && result.ExitReason == ExitContinue && input.VM.Registers[7] == OK ==> uint64(g0 - 10) >= l && *input.VM.Gas == g0 - 10 - int64(l)
+//@   ensures oog: g0 >= 10 && result.ExitReason == ExitContinue && input.VM.Registers[7] == OK ==> uint64(g0 - 10) >= l
+//@   ensures conserve: g0 >= 10 && result.ExitReason == ExitContinue && input.VM.Registers[7] == OK && has(old(xacc(input)), s) ==> bal0 >= a && uint64(xacc(input)[s].ServiceInfo.Balance) == bal0 - a
+//@   ensures error: g0 >= 10 && result.ExitReason == ExitContinue && (input.VM.Registers[7] == WHO || input.VM.Registers[7] == LOW || input.VM.Registers[7] == CASH) ==> *input.VM.Gas == g0 - 10 && (has(old(xacc(input)), s) ==> uint64(xacc(input)[s].ServiceInfo.Balance) == bal0) && len(result.Addition.ResultContextX.DeferredTransfers) == len(old(input.Addition.ResultContextX.DeferredTransfers))
+//@   assigns everything
